@@ -7,6 +7,7 @@ inside M iff 0 <= col <= C-1 and 0 <= row + k <= R-1.  A one-past-the-end pointe
 normalised to (c, r + R) when compared with or subtracted from a pointer of column c."""
 from . import ranges, zone
 from .facts import AnalysisBroken
+from .zone import zone_is_ptr
 from .sym import sym, show
 
 
@@ -25,7 +26,7 @@ class Dense:
         out = {}
         for nm, arr in self.ptrs.get(fn.name, {}).items():
             for vid, lv in fn.locals.items():
-                if lv['name'] == nm and lv['type'].endswith('*'):
+                if lv['name'] == nm and zone_is_ptr(lv['type']):
                     out[vid] = arr
         fn._dense_tab = (self, out)
         return out
@@ -109,13 +110,28 @@ class Dense:
         if k == 'BinaryOperator' and n.get('op') in ('+', '-'):
             l, r = fn.nodes[n['c'][0]], fn.nodes[n['c'][1]]
             pl = self.ptr_of(fn, l, resolve)
-            e = ranges.linform(fn, r)
+            off = r
             if pl is None and n['op'] == '+':
                 pl = self.ptr_of(fn, r, resolve)
-                e = ranges.linform(fn, l)
-            if pl is None or e is None:
+                off = l
+            if pl is None:
                 return None
-            return self.shift(fn, pl, e, 1 if n['op'] == '+' else -1, resolve)
+            e = ranges.linform(fn, off)
+            sgn = 1 if n['op'] == '+' else -1
+            if e is None:
+                # k * stride: k whole columns
+                o = fn.strip(off)
+                if o is not None and o['k'] == 'BinaryOperator' and o.get('op') == '*':
+                    R, C, S = self.dims(fn, pl[0], resolve)
+                    a_, b_ = ranges.linform(fn, fn.nodes[o['c'][0]]), ranges.linform(fn, fn.nodes[o['c'][1]])
+                    for kf, sf in ((a_, b_), (b_, a_)):
+                        if kf is not None and sf is not None and {k_: v_ for k_, v_ in ranges.lf_sub(sf, S).items() if v_ != 0} == {}:
+                            col = dict(pl[1])
+                            for k_, v_ in kf.items():
+                                col[k_] = col.get(k_, 0) + sgn * v_
+                            return (pl[0], col, pl[2])
+                return None
+            return self.shift(fn, pl, e, sgn, resolve)
         return None
 
     def shift(self, fn, p, e, sgn, resolve):
@@ -137,6 +153,18 @@ class Dense:
     # -- zone transfer ---------------------------------------------------------------------------------------------
     def make_step(self, resolve):
         def set_var(d, v, form):
+            # fold variables whose value the zone knows exactly
+            d.close()
+            f2 = {1: form.get(1, 0)}
+            for k_, c_ in form.items():
+                if k_ == 1 or c_ == 0:
+                    continue
+                hi, lo = d.get(k_, 'Z'), d.get('Z', k_)
+                if hi != zone.INF and lo != zone.INF and hi == -lo:
+                    f2[1] += c_ * hi
+                else:
+                    f2[k_] = f2.get(k_, 0) + c_
+            form = f2
             d.forget(v)
             vs = [(k, c) for k, c in form.items() if k != 1 and c != 0]
             if not vs:
@@ -212,6 +240,54 @@ class Dense:
                     return True
             return False
         return step
+
+    def make_assume(self, resolve):
+        def hook(fn, d, n, truth):
+            tab = self.table(fn, resolve)
+            if not tab:
+                return False
+            pl, pr = self.ptr_of(fn, fn.nodes[n['c'][0]], resolve), self.ptr_of(fn, fn.nodes[n['c'][1]], resolve)
+            if pl is None or pr is None or pl[0] != pr[0]:
+                return False
+
+            def var_c(form):
+                vs = [(k, c) for k, c in form.items() if k != 1 and c != 0]
+                if not vs:
+                    return ('Z', form.get(1, 0))
+                if len(vs) == 1 and vs[0][1] == 1:
+                    return (vs[0][0], form.get(1, 0))
+                return None
+            rl, rr = var_c(pl[2]), var_c(pr[2])
+            cl, cr = var_c(pl[1]), var_c(pr[1])
+            if None in (rl, rr, cl, cr):
+                return True          # modelled pointers, relation not representable: no refinement (sound)
+            d.close()
+            rows_equal = d.entails(rl[0], rr[0], rr[1] - rl[1]) and d.entails(rr[0], rl[0], rl[1] - rr[1])
+            cols_equal = d.entails(cl[0], cr[0], cr[1] - cl[1]) and d.entails(cr[0], cl[0], cl[1] - cr[1])
+            op = n['op']
+            if not truth:
+                op = {'<': '>=', '<=': '>', '>': '<=', '>=': '<', '==': '!=', '!=': '=='}[op]
+            if rows_equal:
+                a, b = cl, cr
+            elif cols_equal:
+                a, b = rl, rr
+            else:
+                return True
+            (x, cx), (y, cy) = a, b
+            c = cy - cx
+            if op == '<':
+                d.add(x, y, c - 1)
+            elif op == '<=':
+                d.add(x, y, c)
+            elif op == '>':
+                d.add(y, x, -c - 1)
+            elif op == '>=':
+                d.add(y, x, -c)
+            elif op == '==':
+                d.add(x, y, c)
+                d.add(y, x, -c)
+            return True
+        return hook
 
     # -- obligations -----------------------------------------------------------------------------------------------
     def sites(self, resolve):
